@@ -135,6 +135,9 @@ def run(ctx):
     r2 = ctx.rule("R19.2", "block-boundary record: single origin of BlockBoundary, exit re-enters at ReadBlockHeader, record/rebuild symmetric, "
                            "nothing else is needed to resume", floor=8, config="H4")
     ic.rule_boundary(ctx, "H4", r2)
+    r6 = ctx.rule("R19.6", "a boundary stop is reported: the exit path replaces the status by HasMoreOutput only when it is NeedsMoreInput "
+                           "(never the BlockBoundary stop, also when the output window is full)", floor=1, config="H4")
+    ic.rule_override(ctx, "H4", r6)
     r3 = ctx.rule("R19.5", "every decoder register is written back on every exit (a clone taken between calls captures the whole state)", floor=3, config="H4")
     ic.rule_localvars(ctx, "H4", r3)
     ic.rule_loop_state(ctx, "H4", r3)
